@@ -53,7 +53,8 @@ RULE = ("one case = one generated device class tree (0..3 embedded devices, nest
         "emitted; distinct = distinct canonical driver text")
 EXHAUSTIVE = {"quick": False, "thorough": False}
 ASSUMPTIONS = [
-    "all text is ASCII (Python str.lower on non-ASCII is outside the model)",
+    "text is ASCII, except that search targets may contain non-ASCII characters that str.lower() leaves non-ASCII (the "
+    "model's lower is the identity on them; code points that str.lower() maps to ASCII, e.g. KELVIN SIGN, are not generated)",
     "device trees are in the domain Upnp.C13.wfTree: UDNs are uuid: names (any case) without '::' and not ending in ':', "
     "every device/service type is base:canonical-decimal-version; nothing else - devices may share UDNs or types, the same "
     "service type may occur in several devices, a device type may equal a service type (all generated); the driver checks "
@@ -258,6 +259,8 @@ def st_class(st: Optional[str], device, answered: bool) -> str:
     if st is None:
         return "absent"
     low = st.lower()
+    if any(ord(c) > 127 for c in st):
+        return "unicode-lookalike"
     if low == "ssdp:all":
         return "all"
     if low == "upnp:rootdevice":
@@ -356,8 +359,11 @@ def run_recipe(ctx: Ctx, recipe: Dict[str, Any], cid: str) -> Case:
 
         class RecSock:
             family = 2
+            closed = False
 
             def sendto(self, data, addr):
+                if self.closed:                      # like a real socket after close()
+                    raise OSError(9, "Bad file descriptor")
                 sent.append((ms(), addr, bytes(data)))
                 return len(data)
 
@@ -371,13 +377,15 @@ def run_recipe(ctx: Ctx, recipe: Dict[str, Any], cid: str) -> Case:
                 pass
 
             def close(self):
-                pass
+                self.closed = True
 
         class EndpointTransport:
             def __init__(self, sock):
                 self.sock, self.proto, self.closed = sock, None, False
 
             def sendto(self, data, addr=None):
+                if self.closed:
+                    raise OSError(9, "Bad file descriptor")
                 tr_sent.append((ms(), addr, bytes(data), self))
 
             def get_protocol(self):
@@ -388,6 +396,8 @@ def run_recipe(ctx: Ctx, recipe: Dict[str, Any], cid: str) -> Case:
 
             def close(self):
                 self.closed = True
+                if self.sock is not None:
+                    self.sock.close()             # a transport owns its socket
 
             def is_closing(self):
                 return self.closed
@@ -466,6 +476,7 @@ def run_recipe(ctx: Ctx, recipe: Dict[str, Any], cid: str) -> Case:
                                                        options=responder_options)
                 await responder.async_start()            # public entry point
             rproto = responder._transport.get_protocol()
+            running = [True]                          # the responder is listening
 
             searches: List[Dict[str, Any]] = []
 
@@ -480,7 +491,24 @@ def run_recipe(ctx: Ctx, recipe: Dict[str, Any], cid: str) -> Case:
                 if name == "advance":
                     await advance(int(op[1]))
                     tags.add("op:advance")
+                elif name == "rstop":
+                    # responder life cycle: stop listening (answers already scheduled still go out) ...
+                    if via_server or not running[0]:
+                        continue
+                    await responder.async_stop()
+                    running[0] = False
+                    tags.add("op:responder-stop")
+                elif name == "rstart":
+                    # ... and start the SAME responder object again: it must answer as before
+                    if via_server or running[0]:
+                        continue
+                    await responder.async_start()
+                    rproto = responder._transport.get_protocol()
+                    running[0] = True
+                    tags.add("op:responder-restart")
                 elif name == "search":
+                    if not running[0]:
+                        continue                      # nobody listens: the datagram reaches no handler
                     s = dict(op[1])
                     sid = len(searches)
                     line, man, st, mx = s.get("line", M_SEARCH), s.get("man", DISCOVER), s.get("st"), s.get("mx")
@@ -684,6 +712,47 @@ MX_VALUES = [None, None, "0", "1", "2", "3", "4", "5", "6", "7", "8", "9", "10",
              "1_0", "0x2", "120", "00", "03"]
 
 
+def _lookalike_table() -> Dict[str, List[str]]:
+    """ASCII text -> non-ASCII strings that are NOT equal to it under str.lower() but become it under casefold(),
+    upper().lower() or NFKC/NFKD normalisation (computed, not listed: every BMP code point is tried)"""
+    import unicodedata
+    table: Dict[str, List[str]] = {}
+    for cp in range(0x80, 0x10000):
+        ch = chr(cp)
+        if 0xD800 <= cp <= 0xDFFF:
+            continue
+        low = ch.lower()
+        if any(ord(x) < 128 for x in low):
+            continue                                   # str.lower() itself already yields ASCII (e.g. KELVIN SIGN)
+        for f in (str.casefold, lambda x: x.upper().lower(), lambda x: unicodedata.normalize("NFKC", x).lower(),
+                  lambda x: unicodedata.normalize("NFKD", x).lower()):
+            t = f(ch)
+            if t and len(t) <= 3 and all(ord(x) < 128 for x in t) and t.isalnum():
+                lst = table.setdefault(t, [])
+                if ch not in lst and len(lst) < 6:
+                    lst.append(ch)
+    return table
+
+
+_LOOKALIKES: Dict[str, List[str]] = {}
+
+
+def lookalikes(rng: random.Random, target: str, n: int = 2) -> List[str]:
+    """variants of one of the server's own targets in which some characters are replaced by non-ASCII look-alikes;
+    str.lower() does not map them back, so they are foreign targets"""
+    if not _LOOKALIKES:
+        _LOOKALIKES.update(_lookalike_table())
+    out = []
+    low = target.lower()
+    spots = [(i, k) for k in _LOOKALIKES for i in range(len(low)) if low.startswith(k, i)]
+    for _ in range(n):
+        if not spots:
+            break
+        i, k = rng.choice(spots)
+        out.append(target[:i] + rng.choice(_LOOKALIKES[k]) + target[i + len(k):])
+    return out
+
+
 def all_targets(rng: random.Random, tree: Dict[str, Any]) -> List[Optional[str]]:
     t: List[Optional[str]] = ["ssdp:all", "upnp:rootdevice", recase(rng, "ssdp:all"), recase(rng, "upnp:rootdevice"), None]
     for d in flatten(tree):
@@ -696,6 +765,12 @@ def all_targets(rng: random.Random, tree: Dict[str, Any]) -> List[Optional[str]]
             for v in range(0, 6):
                 t.append(recase(rng, f"{basepart}:{v}") if rng.random() < 0.4 else f"{basepart}:{v}")
     t += FOREIGN
+    own = ["ssdp:all", "upnp:rootdevice"]
+    for d in flatten(tree):
+        own += [d["udn"], d["type"]] + [ty for ty, _ in svc_pairs(d)]
+    rng.shuffle(own)
+    for tgt in ["ssdp:all", "upnp:rootdevice"] + own[:6]:
+        t += lookalikes(rng, tgt, 1)
     return t
 
 
@@ -732,6 +807,11 @@ def tree_cases(rng: random.Random, tree: Dict[str, Any], prefix: str, per_case: 
             ops.append(["search", rand_search(rng, st)])
             if rng.random() < 0.6:
                 ops.append(["advance", rng.choice([1, 50, 100, 400, 999, 1000, 2500, 5000, 30000, rng.randrange(1, 90000)])])
+        if rng.random() < 0.25:
+            # stop / start the responder (possibly repeatedly) before and between the searches
+            for _ in range(rng.choice([1, 1, 2, 3])):
+                pos = rng.randrange(0, len(ops) + 1)
+                ops[pos:pos] = [["rstop"]] + ([["advance", rng.choice([0, 10, 3000])]] if rng.random() < 0.5 else []) + [["rstart"]]
         if with_ann:
             if not any(o[0] == "astart" for o in ops):
                 ops.insert(rng.randrange(0, len(ops) + 1), ["astart"])
@@ -889,6 +969,19 @@ CORPUS += [
      "ops": [["search", {"st": "nothing"}], ["astart"], ["advance", 31000], ["astop"]]},
     {"tree": _ROOT, "via_server": True, "always_root": False, "custom_headers": None,
      "ops": [["search", {"st": "nothing"}], ["search", {"st": "upnp:rootdevice"}], ["advance", 31000], ["astop"]]},
+]
+
+
+CORPUS += [
+    # batch 5: start -> stop -> start on ONE responder object, then searches (immediate and delayed) must be answered
+    {"tree": _ROOT, "ops": [["rstop"], ["rstart"], ["search", {"st": "upnp:rootdevice"}],
+                            ["search", {"st": "ssdp:all", "mx": "2", "sel": 0}], ["rstop"], ["advance", 50], ["rstart"],
+                            ["rstop"], ["rstart"], ["search", {"st": "uuid:emb", "mx": "1", "sel": "max"}]]},
+    # batch 5: look-alikes of the server's own targets (casefold / NFKC would fold them, lower() does not): foreign
+    {"tree": _ROOT, "ops": [["search", {"st": "\u017fsdp:all", "via": "direct"}], ["search", {"st": "upnp:rootdevi\uff43e", "via": "direct"}],
+                            ["search", {"st": "uuid:e\uff4db", "via": "direct"}],
+                            ["search", {"st": "urn:schemas-upnp-org:\u017fervice:B:1", "via": "direct"}],
+                            ["search", {"st": "urn:schemas-upnp-org:device:Emb:\uff11", "via": "direct"}]]},
 ]
 
 
